@@ -22,6 +22,12 @@ CFG = {
         # cryptKey[keypos] (state.go:49), the one data-dependent key index: in range at every read (no panic; `% 8` in Crypt.kget is the identity)
         "Swat4.C02.keypos_in_range",
         "Swat4.C02.encrypt_checked",
+        # the driver-only reconstruction of the random header draws from the reply
+        "Swat4.C02.recoverRnd_encrypt",
+        "Swat4.C02.recoverRnd_agrees",
+        "Swat4.C02.recoverRnd_encrypt_bytes",
+        "Swat4.C02.recoverRnd_encrypt_exact",
+        "Swat4.C02.recoverRnd_dead_position",
     ],
     "shards": (1, 16),
     "nontrivial": _c02_nontrivial,
@@ -41,7 +47,7 @@ CFG = {
     ],
     "trusted_base": COMMON_TRUSTED,
     "manifest": {
-        "text": "Lean theorem C02_main: for every 6-byte NUL-free secret, 8-byte challenge, 23 header draws and plaintext of any length, the independently written SDK reference decoder applied to the model of crypt.Encrypt returns the plaintext; encrypt_length: ciphertext = plaintext + 23 bytes; encrypt_total: the shuffle loop always terminates; C02_swat4: the instance for the game key read from the source. The model is tied to crypt.go/state.go by byte-for-byte comparison of Go Encrypt output with the model on generated inputs, and the SDK decoder is also run on the Go bytes.",
+        "text": "Lean theorem C02_main: for every 6-byte NUL-free secret, 8-byte challenge, 23 header draws and plaintext of any length, the independently written SDK reference decoder applied to the model of crypt.Encrypt returns the plaintext; encrypt_length: ciphertext = plaintext + 23 bytes; encrypt_total: the shuffle loop always terminates; C02_swat4: the instance for the game key read from the source. recoverRnd_encrypt / recoverRnd_agrees / recoverRnd_encrypt_bytes: the driver-only recoverRnd (the 23 header draws read back from the reply) returns, on the output of Encrypt for unknown draws rnd, a vector of the right length that equals rnd at each of the 19 positions that reach the output, and the model run with it returns exactly that output, so comparing 'model with recovered draws' with the reply loses nothing; recoverRnd_encrypt_exact: it returns rnd itself when the four overwritten positions (0, 1, 2, 8) hold the canonical values; recoverRnd_dead_position: the unrestricted equation is false because those draws never reach the output. The model is tied to crypt.go/state.go by byte-for-byte comparison of Go Encrypt output with the model on generated inputs, and the SDK decoder is also run on the Go bytes.",
         "level_note": "Trusted: Lean kernel; axioms propext, Quot.sound, Classical.choice; the SDK reference (Spec/GOA.lean) as the definition of 'stock client'; the finite differential run as evidence that Model/Crypt.lean behaves like crypt.go; generated Facts.lean (constants, game key) via the harness' facts extractor.",
         "technique": "Lean 4 proof (round-trip by induction; SDK-vs-Go key-schedule refinement) + differential correspondence",
         "design_ref": "DESIGN.md §5 C02",
